@@ -17,6 +17,15 @@ import (
 
 const verifRoot = "/verif"
 
+// outRoot is where evidence, replay files and scratch directories go: /verif, unless an experiment (seed evaluation
+// against a scratch copy of the repository, see run.sh) redirects them so that it cannot disturb the registered checks.
+func outRoot() string {
+	if d := os.Getenv("VERIF_ALT_OUT"); d != "" {
+		return d
+	}
+	return verifRoot
+}
+
 type Check struct {
 	ID          string
 	Level       string // evidence level: model_checking | exploration | fault_enumeration
@@ -107,7 +116,7 @@ func cmdWorker(args []string) int {
 	}
 	x := newX(id, *tier, *shard, *nshards)
 	x.known = loadKnown(filepath.Join(verifRoot, "known_findings.json"))
-	x.outDir = filepath.Join(verifRoot, ".out", id)
+	x.outDir = filepath.Join(outRoot(), ".out", id)
 	if *budget > 0 {
 		x.deadline = time.Now().Add(*budget)
 	}
@@ -167,10 +176,10 @@ func cmdCheck(args []string) int {
 		budget = ck.ThoroughBudget
 	}
 	start := time.Now()
-	work := filepath.Join(verifRoot, ".work", fmt.Sprintf("%s-%d", id, os.Getpid()))
+	work := filepath.Join(outRoot(), ".work", fmt.Sprintf("%s-%d", id, os.Getpid()))
 	os.MkdirAll(work, 0o755)
 	defer os.RemoveAll(work)
-	outDir := filepath.Join(verifRoot, ".out", id)
+	outDir := filepath.Join(outRoot(), ".out", id)
 	os.RemoveAll(outDir)
 	os.MkdirAll(outDir, 0o755)
 	exe, _ := os.Executable()
@@ -365,9 +374,9 @@ func cmdCheck(args []string) int {
 		"assumptions": ck.Assumptions, "wall_s": time.Since(start).Seconds(), "violations": len(violations),
 		"technique": ck.Technique,
 	}
-	os.MkdirAll(filepath.Join(verifRoot, "evidence"), 0o755)
+	os.MkdirAll(filepath.Join(outRoot(), "evidence"), 0o755)
 	b, _ := json.MarshalIndent(ev, "", " ")
-	if err := os.WriteFile(filepath.Join(verifRoot, "evidence", id+".json"), b, 0o644); err != nil {
+	if err := os.WriteFile(filepath.Join(outRoot(), "evidence", id+".json"), b, 0o644); err != nil {
 		fmt.Fprintln(os.Stderr, "harness: cannot write evidence:", err)
 		return 2
 	}
@@ -459,7 +468,7 @@ func cmdReplay(args []string) int {
 		}
 	}
 	if ck.Overlay && !builtWithOverlay {
-		work := filepath.Join(verifRoot, ".work", fmt.Sprintf("replay-%d", os.Getpid()))
+		work := filepath.Join(outRoot(), ".work", fmt.Sprintf("replay-%d", os.Getpid()))
 		defer os.RemoveAll(work)
 		exe, _, err := buildOverlayBinary(work, false)
 		if err != nil {
